@@ -213,4 +213,296 @@ theorem findFrom_bounds (o : Opts) (inp : Array Nat) (ncaps : Nat) (node : Node)
       · have := ih (i + 1) j r h
         omega
 
+
+/-! ### captures stay inside the input -/
+
+
+/-- every recorded capture is a span inside the input -/
+def CapsIn (inp : Array Nat) (caps : List (Option (Nat × Nat))) : Prop :=
+  ∀ c ∈ caps, ∀ a b, c = some (a, b) → a ≤ b ∧ b ≤ inp.size
+
+theorem capsIn_set (inp : Array Nat) (caps : List (Option (Nat × Nat))) (i : Nat) (v : Option (Nat × Nat))
+    (h : CapsIn inp caps) (hv : ∀ a b, v = some (a, b) → a ≤ b ∧ b ≤ inp.size) : CapsIn inp (caps.set i v) := by
+  intro c hc a b hcab
+  rcases List.mem_or_eq_of_mem_set hc with h1 | h1
+  · exact h c h1 a b hcab
+  · subst h1; exact hv a b hcab
+
+theorem capsIn_clear (inp : Array Nat) (first : Nat) : ∀ (n : Nat) (caps : List (Option (Nat × Nat))),
+    CapsIn inp caps → CapsIn inp (clearCaps caps first n) := by
+  intro n caps h
+  unfold clearCaps
+  generalize List.range n = l
+  induction l generalizing caps with
+  | nil => simpa using h
+  | cons j l ih =>
+    simp only [List.foldl]
+    exact ih _ (capsIn_set inp caps _ none h (by intro a b hh; simp at hh))
+
+def Reaches2 (inp : Array Nat) (st : St) (k : St → Option St) (r : St) : Prop :=
+  ∃ s', st.pos ≤ s'.pos ∧ s'.pos ≤ inp.size ∧ CapsIn inp s'.caps ∧ k s' = some r
+
+theorem reaches2_trans {inp : Array Nat} {st s1 : St} {k : St → Option St} {r : St}
+    (h1 : st.pos ≤ s1.pos) (h : Reaches2 inp s1 k r) : Reaches2 inp st k r := by
+  obtain ⟨s', a, b, c, d⟩ := h
+  exact ⟨s', by omega, b, c, d⟩
+
+abbrev IH2 (o : Opts) (inp : Array Nat) (fuel : Nat) : Prop :=
+  ∀ (node : Node) (st : St) (k : St → Option St) (r : St), st.pos ≤ inp.size → CapsIn inp st.caps →
+      run o inp fuel node st k = some r → Reaches2 inp st k r
+
+theorem foldr_reaches2 (o : Opts) (inp : Array Nat) (fuel : Nat) (ih : IH2 o inp fuel) :
+    ∀ (ns : List Node) (st : St) (k : St → Option St) (r : St), st.pos ≤ inp.size → CapsIn inp st.caps →
+      (ns.foldr (fun n kont => fun s => run o inp fuel n s kont) k) st = some r → Reaches2 inp st k r := by
+  intro ns
+  induction ns with
+  | nil => intro st k r hp hc h; exact ⟨st, Nat.le_refl _, hp, hc, h⟩
+  | cons n ns ihn =>
+    intro st k r hp hc h
+    simp only [List.foldr] at h
+    obtain ⟨s1, a, b, c, d⟩ := ih n st _ r hp hc h
+    exact reaches2_trans a (ihn s1 k r b c d)
+
+theorem firstSome_reaches2 (o : Opts) (inp : Array Nat) (fuel : Nat) (ih : IH2 o inp fuel) :
+    ∀ (ns : List Node) (st : St) (k : St → Option St) (r : St), st.pos ≤ inp.size → CapsIn inp st.caps →
+      firstSome ns (fun n => run o inp fuel n st k) = some r → Reaches2 inp st k r := by
+  intro ns
+  induction ns with
+  | nil => intro st k r hp hc h; simp [firstSome] at h
+  | cons n ns ihn =>
+    intro st k r hp hc h
+    simp only [firstSome] at h
+    cases hn : run o inp fuel n st k with
+    | some r' => rw [hn] at h; simp at h; subst h; exact ih n st k r' hp hc hn
+    | none => rw [hn] at h; exact ihn st k r hp hc h
+
+theorem one_reaches2 (inp : Array Nat) (st : St) (k : St → Option St) (r : St) (test : Nat → Bool) (hc : CapsIn inp st.caps)
+    (h : (if st.pos < inp.size && test inp[st.pos]! then k { st with pos := st.pos + 1 } else none) = some r) :
+    Reaches2 inp st k r := by
+  split at h
+  · rename_i hcond
+    simp only [Bool.and_eq_true, decide_eq_true_eq] at hcond
+    exact ⟨{ st with pos := st.pos + 1 }, by simp, by simp; omega, hc, h⟩
+  · simp at h
+
+theorem run_reaches2 (o : Opts) (inp : Array Nat) : ∀ (fuel : Nat), IH2 o inp fuel := by
+  intro fuel
+  induction fuel with
+  | zero => intro node st k r _ _ h; simp [run] at h
+  | succ fuel ih =>
+    intro node st k r hp hc h
+    cases node with
+    | chr cp => simp only [run] at h; exact one_reaches2 inp st k r _ hc h
+    | dot => simp only [run] at h; exact one_reaches2 inp st k r (fun c => o.dotAll || !isLineTerm c) hc h
+    | esc x => simp only [run] at h; exact one_reaches2 inp st k r _ hc h
+    | cls neg items =>
+      simp only [run] at h
+      exact one_reaches2 inp st k r (fun c => (setMatch o (fun d => items.any (fun it => itemMatch it d)) c) != neg) hc h
+    | wb neg =>
+      simp only [run] at h
+      split at h
+      · exact ⟨st, Nat.le_refl _, hp, hc, h⟩
+      · simp at h
+    | bol =>
+      simp only [run] at h
+      split at h
+      · exact ⟨st, Nat.le_refl _, hp, hc, h⟩
+      · simp at h
+    | eol =>
+      simp only [run] at h
+      split at h
+      · exact ⟨st, Nat.le_refl _, hp, hc, h⟩
+      · simp at h
+    | grp idx n =>
+      simp only [run] at h
+      obtain ⟨s2, a, b, c, d⟩ := ih n st _ r hp hc h
+      refine ⟨_, ?_, ?_, ?_, d⟩
+      · split <;> simpa using a
+      · split <;> simpa using b
+      · split
+        · exact capsIn_set inp s2.caps idx _ c (by intro x y hxy; simp at hxy; omega)
+        · exact c
+    | seq ns => simp only [run] at h; exact foldr_reaches2 o inp fuel ih ns st k r hp hc h
+    | alt ns => simp only [run] at h; exact firstSome_reaches2 o inp fuel ih ns st k r hp hc h
+    | la neg n =>
+      simp only [run] at h
+      cases hn : run o inp fuel n st (fun s => some s) with
+      | some r0 =>
+        rw [hn] at h
+        simp only at h
+        split at h
+        · simp at h
+        · obtain ⟨s0, _, _, c0, d0⟩ := ih n st _ r0 hp hc hn
+          simp at d0; subst d0
+          exact ⟨{ st with caps := s0.caps }, by simp, by simpa using hp, c0, h⟩
+      | none =>
+        rw [hn] at h
+        simp only at h
+        split at h
+        · exact ⟨st, Nat.le_refl _, hp, hc, h⟩
+        · simp at h
+    | q min max lazy firstCap nCaps n =>
+      simp only [run] at h
+      split at h
+      · exact ⟨st, Nat.le_refl _, hp, hc, h⟩
+      · have hd : ∀ (st' : St), st'.pos = st.pos → CapsIn inp st'.caps → ∀ r', run o inp fuel n st'
+            (fun st2 =>
+              if (!o.perlLoops && min == 0 && st2.pos == st.pos) = true then none
+              else if (o.perlLoops && st2.pos == st.pos) = true then k st2
+              else run o inp fuel (.q (min - 1) (max.map (· - 1)) lazy firstCap nCaps n) st2 k) = some r' →
+            Reaches2 inp st k r' := by
+          intro st' hst hc' r' hr
+          obtain ⟨s2, a, b, c2, c⟩ := ih n st' _ r' (by omega) hc' hr
+          simp only at c
+          split at c
+          · simp at c
+          · split at c
+            · exact ⟨s2, by omega, b, c2, c⟩
+            · exact reaches2_trans (by omega) (ih _ s2 k r' b c2 c)
+        have hclear : CapsIn inp (if o.perlLoops = true then st else { st with caps := clearCaps st.caps firstCap nCaps }).caps := by
+          split
+          · exact hc
+          · exact capsIn_clear inp firstCap nCaps st.caps hc
+        split at h
+        · exact hd _ (by split <;> rfl) hclear r h
+        · split at h
+          · split at h
+            · rename_i r1 hk; simp at h; subst h; exact ⟨st, Nat.le_refl _, hp, hc, hk⟩
+            · exact hd _ (by split <;> rfl) hclear r h
+          · split at h
+            · rename_i r1 hk; simp at h; subst h; exact hd _ (by split <;> rfl) hclear r1 hk
+            · exact ⟨st, Nat.le_refl _, hp, hc, h⟩
+
+/-- Every capture of a match found by the reference matcher is a span a ≤ b ≤ |input|. -/
+theorem findFrom_caps (o : Opts) (inp : Array Nat) (ncaps : Nat) (node : Node) :
+    ∀ (fuel i j : Nat) (r : St), findFrom o inp ncaps node fuel i = some (j, r) → CapsIn inp r.caps := by
+  intro fuel
+  induction fuel with
+  | zero => intro i j r h; simp [findFrom] at h
+  | succ fuel ih =>
+    intro i j r h
+    simp only [findFrom] at h
+    split at h
+    · simp at h
+    · rename_i hi
+      split at h
+      · rename_i r0 hr
+        simp at h
+        obtain ⟨h1, h2⟩ := h
+        subst h1 h2
+        have hinit : CapsIn inp (List.replicate (ncaps + 1) (none : Option (Nat × Nat))) := by
+          intro c hcm a b hcab
+          have := List.eq_of_mem_replicate hcm
+          rw [this] at hcab; simp at hcab
+        obtain ⟨s', _, _, c, d⟩ := run_reaches2 o inp _ node _ _ r0 (by simp; omega) hinit hr
+        simp at d; subst d
+        exact c
+      · exact ih (i + 1) j r h
+
+
+
+/-! ### the reference finder is leftmost-consistent -/
+
+
+/-- one attempt at position i (the `run` call of `findFrom`) -/
+def tryAt (o : Opts) (inp : Array Nat) (ncaps : Nat) (node : Node) (i : Nat) : Option St :=
+  run o inp 100000 node { pos := i, caps := List.replicate (ncaps + 1) none } (fun s => some s)
+
+theorem findFrom_step (o : Opts) (inp : Array Nat) (ncaps : Nat) (node : Node) (F i : Nat) :
+    findFrom o inp ncaps node (F + 1) i =
+      if i > inp.size then none
+      else match tryAt o inp ncaps node i with
+        | some r => some (i, r)
+        | none => findFrom o inp ncaps node F (i + 1) := by
+  simp only [findFrom, tryAt]
+  split
+  · rfl
+  · split <;> simp_all
+
+/-- with enough fuel to reach the end of the input the amount of fuel is irrelevant -/
+theorem findFrom_enough (o : Opts) (inp : Array Nat) (ncaps : Nat) (node : Node) : ∀ (F F' i : Nat),
+    inp.size + 2 - i ≤ F → inp.size + 2 - i ≤ F' →
+    findFrom o inp ncaps node F i = findFrom o inp ncaps node F' i := by
+  intro F
+  induction F with
+  | zero =>
+    intro F' i h h'
+    have hi : i > inp.size := by omega
+    cases F' with
+    | zero => rfl
+    | succ k => rw [findFrom_step]; simp [hi, findFrom]
+  | succ F ih =>
+    intro F' i h h'
+    cases F' with
+    | zero =>
+      have hi : i > inp.size := by omega
+      rw [findFrom_step]; simp [hi, findFrom]
+    | succ k =>
+      rw [findFrom_step, findFrom_step]
+      by_cases hi : i > inp.size
+      · simp [hi]
+      · simp only [hi, if_false]
+        cases tryAt o inp ncaps node i with
+        | some r => rfl
+        | none => exact ih k (i + 1) (by omega) (by omega)
+
+/-- the reference matcher's finder, as `Ref.table` uses it -/
+def refFind (o : Opts) (inp : Array Nat) (ncaps : Nat) (node : Node) (i : Nat) : Option (Nat × St) :=
+  findFrom o inp ncaps node (inp.size + 2) i
+
+theorem refFind_unfold (o : Opts) (inp : Array Nat) (ncaps : Nat) (node : Node) (i : Nat) (hi : i ≤ inp.size) :
+    refFind o inp ncaps node i =
+      match tryAt o inp ncaps node i with
+      | some r => some (i, r)
+      | none => refFind o inp ncaps node (i + 1) := by
+  have hnot : ¬ i > inp.size := by omega
+  simp only [refFind]
+  rw [show inp.size + 2 = (inp.size + 1) + 1 from rfl, findFrom_step]
+  simp only [hnot, if_false]
+  cases tryAt o inp ncaps node i with
+  | some r => rfl
+  | none => exact findFrom_enough o inp ncaps node _ _ (i + 1) (by omega) (by omega)
+
+/-- the finder does not change while the start moves up to the match it found -/
+theorem refFind_stable (o : Opts) (inp : Array Nat) (ncaps : Nat) (node : Node) : ∀ (d i j : Nat) (r : St),
+    refFind o inp ncaps node i = some (j, r) → i + d ≤ j → refFind o inp ncaps node (i + d) = some (j, r) := by
+  intro d
+  induction d with
+  | zero => intro i j r h _; exact h
+  | succ d ih =>
+    intro i j r h hd
+    have hb := findFrom_bounds o inp ncaps node _ i j r h
+    have hi : i ≤ inp.size := by omega
+    rw [refFind_unfold o inp ncaps node i hi] at h
+    cases ht : tryAt o inp ncaps node i with
+    | some r0 => rw [ht] at h; simp at h; omega
+    | none =>
+      rw [ht] at h
+      have := ih (i + 1) j r h (by omega)
+      rw [show i + (d + 1) = i + 1 + d by omega]
+      exact this
+
+/-- nothing found from i ⇒ nothing found from any later start -/
+theorem refFind_none_up (o : Opts) (inp : Array Nat) (ncaps : Nat) (node : Node) : ∀ (d i : Nat),
+    refFind o inp ncaps node i = none → refFind o inp ncaps node (i + d) = none := by
+  intro d
+  induction d with
+  | zero => intro i h; exact h
+  | succ d ih =>
+    intro i h
+    by_cases hi : i ≤ inp.size
+    · rw [refFind_unfold o inp ncaps node i hi] at h
+      cases ht : tryAt o inp ncaps node i with
+      | some r0 => rw [ht] at h; simp at h
+      | none =>
+        rw [ht] at h
+        have := ih (i + 1) h
+        rw [show i + (d + 1) = i + 1 + d by omega]
+        exact this
+    · have : i + (d + 1) > inp.size := by omega
+      simp only [refFind]
+      rw [show inp.size + 2 = (inp.size + 1) + 1 from rfl, findFrom_step]
+      simp [this]
+
+
 end GojaModel.C20.Ref
